@@ -395,6 +395,9 @@ func (c *tunnelChannel) allocateStream(ctx context.Context, clientStreams, serve
 	if err := validateMetadata(md); err != nil {
 		return nil, nil, err
 	}
+	if err := validateMethodName(methodName); err != nil {
+		return nil, nil, err
+	}
 
 	ctx, cncl := context.WithCancel(ctx)
 	ctx = context.WithValue(ctx, tunnelMetadataOutgoingContextKey{}, c.tunnelMetadata)
